@@ -1,0 +1,8 @@
+//go:build !verif
+
+package participle
+
+// Verification hooks (build tag "verif") are compiled out.
+const verifEnabled = false
+
+func verifEvent(ev string, a, b, c, d int) {}
